@@ -148,3 +148,7 @@ package types
 //@ func MedianValidatorPriceInfos$lit0
 //@ ensures (result < 0) <==> (priceA.Timestamp > priceB.Timestamp || (priceA.Timestamp == priceB.Timestamp && priceA.Power > priceB.Power))
 //@ ensures (result == 0) <==> (priceA.Timestamp == priceB.Timestamp && priceA.Power == priceB.Power)
+
+// ---- C02: what the feeds end-blocker relies on about the stored parameters is what validation guarantees ------------
+//@ func (p Params) Validate
+//@ ensures err == nil ==> p.CurrentFeedsUpdateInterval > 0 && p.PowerStepThreshold > 0 && p.MinInterval > 0 && p.MaxInterval > 0
